@@ -25,7 +25,7 @@ def specs(tier):
     out = []
     for order in al['orders']:
         for seq in sequences(POOL, 0, al['maxlen']):
-            for form in ('numeric', 'named', 'species_string'):
+            for form in ('numeric', 'named', 'species_string', 'species_string_spaced'):
                 out.append(dict(kind='massaction', reactants=seq, form=form, order=order))
         for kind in HILLS:
             for s1 in POOL:
@@ -43,6 +43,9 @@ def build(spec):
         pd = {'k': 'kf'} if spec['form'] != 'numeric' else {'k': 1.0}
         if spec['form'] == 'species_string':
             pd['species'] = '*'.join(spec['reactants'])
+        if spec['form'] == 'species_string_spaced':
+            # the same product written with blanks around the stars (and around the whole string)
+            pd['species'] = ' * '.join(spec['reactants'])
         rx = (list(spec['reactants']), [], 'massaction', pd)
         params = [('kf', 1.0)] if spec['form'] != 'numeric' else []
     else:
@@ -76,7 +79,13 @@ def expected(spec, x, k, K, n, mode, V):
 
 def evaluate_spec(c, spec, al, stop_at_first=False):
     from bioscrape.simulator import ModelCSimInterface, SafeModelCSimInterface
-    m = build(spec)
+    try:
+        m = build(spec)
+    except KeyError:
+        if spec.get('form') == 'species_string_spaced':
+            c.count('rejected_spaced_species_string')      # some propensity classes do not strip blanks: a rejection, not a wrong rate
+            return
+        raise
     s2i = m.get_species2index()
     p2i = m.get_params2index()
     # the propensity dictionary after construction names the (dummy or real) parameters
